@@ -36,8 +36,13 @@ LEVEL_TEXT = ("Proof of exceptional postconditions on the real AST, for every by
               "(statement-range fragment around its parser call) converts the parser's internal AssertionError / TypeError / "
               "ValueError / UnicodeDecodeError into SSHException. RSAKey._decode_key turns numbers that do not fit together (the library's ValueError, a zero divisor) "
               "and a key of another type inside the block into SSHException; PKey._read_private_key_file turns the text-mode read's "
-              "UnicodeDecodeError into SSHException.")
-LEVEL_NOTE = ("ECDSAKey._decode_key's type check (fix f5d5686) is covered by the native battery only (decode_wrong_material), not by "
+              "UnicodeDecodeError into SSHException; PKey._read_private_key itself converts the UnicodeDecodeError of f.readlines() (a caller's "
+              "text-mode file object over bytes that are not text); the decryption part of PKey._read_private_key_pem (statement-range "
+              "fragment from the cipher-table lookups to the unpadding) lets only SSHException escape although the salt string and the "
+              "ciphertext come from the file (unhexlify, the cipher constructor, the decryptor and the unpadder may each raise ValueError); "
+              "the if / elif chain of Ed25519Key.__init__ that reads the file (fragment) adds nothing that escapes.")
+LEVEL_NOTE = ("The header loop of _read_private_key_pem (a dict with keys taken from the file) is outside the engine's subset: only its "
+              "decryption part is under contract. ECDSAKey._decode_key's type check (fix f5d5686) is covered by the native battery only (decode_wrong_material), not by "
               "an obligation. Library exception classes are assumed from probing (bcrypt.kdf: ValueError for rounds < 1 or empty salt / "
               "password; CBC finalize: ValueError for a length that is not a multiple of 16; base64: binascii.Error). "
               "Ed25519Key._parse_signing_key_data's own raise set is an assumed contract (its loops append to a local list of "
